@@ -6,10 +6,9 @@
 package num
 
 import (
-	"fmt"
 	"math/bits"
 	"sort"
-	"strings"
+	"strconv"
 )
 
 // Atom identifies a symbolic integer variable.
@@ -28,9 +27,9 @@ type Lin struct {
 	Bad bool
 }
 
-func Const(c int64) Lin       { return Lin{C: c} }
-func Var(a Atom) Lin          { return Lin{T: []Term{{a, 1}}} }
-func (l Lin) IsConst() bool   { return len(l.T) == 0 && !l.Bad }
+func Const(c int64) Lin     { return Lin{C: c} }
+func Var(a Atom) Lin        { return Lin{T: []Term{{a, 1}}} }
+func (l Lin) IsConst() bool { return len(l.T) == 0 && !l.Bad }
 func (l Lin) Coef(a Atom) int64 {
 	for _, t := range l.T {
 		if t.A == a {
@@ -118,11 +117,11 @@ func (l Lin) AddMul(m Lin, k int64) Lin {
 	return out
 }
 
-func (l Lin) Add(m Lin) Lin      { return l.AddMul(m, 1) }
-func (l Lin) Sub(m Lin) Lin      { return l.AddMul(m, -1) }
-func (l Lin) Scale(k int64) Lin  { return Lin{}.AddMul(l, k) }
+func (l Lin) Add(m Lin) Lin        { return l.AddMul(m, 1) }
+func (l Lin) Sub(m Lin) Lin        { return l.AddMul(m, -1) }
+func (l Lin) Scale(k int64) Lin    { return Lin{}.AddMul(l, k) }
 func (l Lin) AddConst(c int64) Lin { return l.Add(Const(c)) }
-func (l Lin) Neg() Lin           { return l.Scale(-1) }
+func (l Lin) Neg() Lin             { return l.Scale(-1) }
 
 func (l Lin) Equal(m Lin) bool {
 	if l.Bad || m.Bad || l.C != m.C || len(l.T) != len(m.T) {
@@ -160,11 +159,14 @@ func (l Lin) Atoms() []Atom {
 }
 
 func (l Lin) Key() string {
-	var sb strings.Builder
+	b := make([]byte, 0, 12*len(l.T))
 	for _, t := range l.T {
-		fmt.Fprintf(&sb, "%d*%d,", t.K, t.A)
+		b = strconv.AppendInt(b, t.K, 10)
+		b = append(b, '*')
+		b = strconv.AppendInt(b, int64(t.A), 10)
+		b = append(b, ',')
 	}
-	return sb.String()
+	return string(b)
 }
 
 func gcd(a, b int64) int64 {
@@ -210,4 +212,29 @@ func (l Lin) NormGE() Lin {
 
 func sortTerms(t []Term) {
 	sort.Slice(t, func(i, j int) bool { return t[i].A < t[j].A })
+}
+
+// Hash of the linear part (terms only).
+func (l Lin) Hash() uint64 {
+	h := uint64(1469598103934665603)
+	for _, t := range l.T {
+		h ^= uint64(t.A)
+		h *= 1099511628211
+		h ^= uint64(t.K)
+		h *= 1099511628211
+	}
+	return h
+}
+
+// SameTerms reports whether the linear parts are identical.
+func (l Lin) SameTerms(m Lin) bool {
+	if len(l.T) != len(m.T) {
+		return false
+	}
+	for i := range l.T {
+		if l.T[i] != m.T[i] {
+			return false
+		}
+	}
+	return true
 }
